@@ -18,8 +18,10 @@ RULE = ('weights: strictly monotonic source (2-10 levels; 1 level noted) and '
         'from/to sigma edge grids sharing top and bottom (coincident, '
         'interleaved, nested edges, 1-10 layers); file level: variables that '
         'are linear in the coordinate interpolated along any dimension of '
-        'rank 1-4 variables (interpDimension, interpvars), IOAPI interpSigma '
-        'linear and conserve with random fields. non-trivial = target differs '
+        'rank 1-4 variables (interpDimension with 1-D and with N-D '
+        'per-column coordinate variables, interpvars), IOAPI interpSigma '
+        'linear and conserve with random fields, also with a model top other '
+        'than the file\'s (constant-field law). non-trivial = target differs '
         'from source; distinct = digest of the spec.')
 ASSUMPTIONS = [
     'laws, not a reference implementation: non-negativity, partition of '
